@@ -1910,9 +1910,9 @@ class StringMixin(MonadMixin):
                     index_value = root_translator.fixed_param_values[key]
                 else:
                     index_value = root_translator.vars[key]
-                    if index_value is None:
-                        index_value = 0 if is_start else -1
                     root_translator.fixed_param_values[key] = index_value
+                if index_value is None:
+                    return None  # s[x:y] with x or y equal to None means that the bound is omitted
                 return ConstMonad.new(index_value)
             return monad
 
@@ -1924,7 +1924,7 @@ class StringMixin(MonadMixin):
             stop = param_to_const(stop, is_start=False)
             start_value = stop_value = None
             if start is None: start_value = 0
-            if stop_value is None: stop_value = -1
+            if stop is None: stop_value = -1
             if isinstance(start, ConstMonad): start_value = start.value
             if isinstance(stop, ConstMonad): stop_value = stop.value
             if start_value == 0 and stop_value == -1:
